@@ -48,11 +48,15 @@ struct gm_spec {
 	struct gm_rule rules[GM_MAXRULES];
 	uint16_t goal[GM_MAXLP]; /* handled events after which the LP freezes; 0: frozen at init */
 	uint8_t t0_zero[GM_MAXLP]; /* first heartbeat at t = 0 */
+	uint8_t stateless[GM_MAXLP]; /* "router" LPs: never call SetState (NULL state pointer); all they have is the library RNG, which
+	                                drives what they forward, until GM_ROUTER_HORIZON; their predicate holds from the start */
 	uint8_t init_sends;      /* extra events scheduled at init (some at t = 0) */
 	uint8_t init_bufs;       /* buffers allocated at init */
 	int32_t stop_lp;         /* RootsimStop() from the handler of (stop_lp, stop_at-th handled event); -1: never */
 	uint32_t stop_at;        /* 0: during LP_INIT */
 };
+
+#define GM_ROUTER_HORIZON 40.0
 
 struct gm_dispatch {
 	uint32_t lp;
